@@ -36,16 +36,36 @@ def state_properties_keys(repo):
                 for kw in call.keywords:
                     if kw.arg == 'state_properties':
                         d = kw.value
-                        if isinstance(d, ast.Name) and d.id in dicts:
-                            d = dicts[d.id]
                         if isinstance(d, ast.Constant) and d.value is None:
                             continue
-                        if not isinstance(d, ast.Dict):
-                            raise AnalysisError('state_properties of %s is not a dict literal: %s' % (fi.qualname, norm(kw.value)))
-                        for k, v in zip(d.keys, d.values):
-                            if not (isinstance(k, ast.Constant) and isinstance(k.value, str)):
-                                raise AnalysisError('non-constant state_properties key in %s' % fi.qualname)
-                            out.append((k.value, v, d, fi))
+                        cands = []
+                        if isinstance(d, ast.Dict):
+                            cands.append(d)
+                        elif isinstance(d, ast.Name):
+                            # every dict display assigned to the name, plus `name['key'] = value` stores and `name or None`
+                            for n in ast.walk(fi.node):
+                                if isinstance(n, ast.Assign):
+                                    for t in n.targets:
+                                        if isinstance(t, ast.Name) and t.id == d.id:
+                                            for x in ast.walk(n.value):
+                                                if isinstance(x, ast.Dict):
+                                                    cands.append(x)
+                                        if isinstance(t, ast.Subscript) and isinstance(t.value, ast.Name) and t.value.id == d.id and \
+                                                isinstance(t.slice, ast.Constant) and isinstance(t.slice.value, str):
+                                            out.append((t.slice.value, n.value, n, fi))
+                        elif isinstance(d, (ast.BoolOp, ast.IfExp)):
+                            for x in ast.walk(d):
+                                if isinstance(x, ast.Dict):
+                                    cands.append(x)
+                                if isinstance(x, ast.Name) and x.id in dicts:
+                                    cands.append(dicts[x.id])
+                        if not cands and not any(o[3] is fi for o in out):
+                            raise AnalysisError('state_properties of %s is not recognisable: %s' % (fi.qualname, norm(kw.value)))
+                        for dd in cands:
+                            for k, v in zip(dd.keys, dd.values):
+                                if not (isinstance(k, ast.Constant) and isinstance(k.value, str)):
+                                    raise AnalysisError('non-constant state_properties key in %s' % fi.qualname)
+                                out.append((k.value, v, dd, fi))
     return out
 
 
